@@ -26,6 +26,7 @@ MC = os.path.join(SPEC, "MC_TestRunner.tla")
 JUDGE = os.path.join(SPEC, "TestRunnerTrace.tla")
 JUDGE_CFG = os.path.join(SPEC, "TestRunnerTrace.cfg")
 DEV = "AssertionFiresOnce"
+ONCE = ["1"]      # tier-2 reading of the judge: once-only matching while the finding is open
 
 
 def local_findings(rep):
@@ -142,7 +143,7 @@ def self_test(good, tier):
             muts.append(m)
     if not muts:
         raise V.ToolError("self-test: no accepted record to corrupt")
-    rows, _ = V.judge(JUDGE, muts, cfg=JUDGE_CFG, tag="C18-selftest")
+    rows, _ = V.judge(JUDGE, muts, cfg=JUDGE_CFG, env={"ONCE": ONCE[0]}, tag="C18-selftest")
     rejected = {x["id"] for x in rows if x["verdict"] == "violation"}
     missing = [m["id"] for m in muts if m["id"] not in rejected]
     if missing:
@@ -180,7 +181,8 @@ def main(tier):
     if nbuild < len(recs) * 0.9:
         raise V.ToolError("too few generated projects assemble (%d of %d): generator or tree broken; e.g.\n%s"
                           % (nbuild, len(recs), next((raws[r["id"]]["stdout"][:600] for r in recs if r["obs"]["buildFailed"]), "")))
-    rows, st = V.judge(JUDGE, recs, cfg=JUDGE_CFG, tag="C18-judge", batch=400, timeout=3000)
+    ONCE[0] = "1" if DEV in rep.open else "0"
+    rows, st = V.judge(JUDGE, recs, cfg=JUDGE_CFG, env={"ONCE": ONCE[0]}, tag="C18-judge", batch=400, timeout=3000)
     rep.add_stats(st)
     stats = [x for x in rows if x["verdict"] == "stat"]
     rows = [x for x in rows if x["verdict"] != "stat"]
